@@ -41,6 +41,6 @@ def replay_buffer(ws, pid, unit_, job_, rec, failed, report):
     return False
 REPLAY[r'(char|wchar_t|char16_t|char32_t)\.\w+(\.fault)?'] = replay_buffer
 PROPS['C19'] = dict(level='proof',
-    explanation='fault mode of the same contracts: operator new[] may fail at every call site (one symbolic choice per call); every allocating buffer operation is proved to propagate bad_alloc, leak nothing, free nothing twice, and leave the target well-formed holding its previous value or an empty value',
+    explanation='fault mode of the same contracts: operator new[] may fail at every call site (one symbolic choice per call); every allocating buffer operation is proved to propagate bad_alloc, leak nothing, free nothing twice, and leave the target well-formed holding its previous value or an empty value; string level (harness/string_set.c, fault jobs): operator+ (character, string), += (character, string) and set(const char_buffer&) under the same fault model: bad_alloc is the only exception, the target / operands keep their value (set: previous or empty value), partly built results are released; static fact S7: no function declared noexcept allocates or calls a function that may throw (a failed allocation would end in std::terminate instead of reaching the caller)',
     trusted_base=['contracts/prelude.h: st_new_* may raise bad_alloc when ST_FAULT is set (models a throwing operator new[])'],
     assumptions=['constructors that throw leave no object; only the block accounting is checked for them', 'std::vector growth inside split/tokenize is outside the extracted code (assumed strong guarantee)'])
